@@ -213,7 +213,7 @@ PROPS["C03"] = dict(
     text="declared type vs returned value for stdlib slice: SliceFn::type_def extracted and checked by Verus against an element-level model of array types (known indices + unknown) and the runtime contract of slice (sub-array [s, e))",
     verus=["v_slice_type"],
     kani=[],
-    bounded_native=[dict(unit="stdlib_signatures", bound="73 stdlib calls whose first argument is typed only at runtime x 20 argument values of every kind (numbers, strings, arrays, objects, null, boolean, float, timestamp): 1460 calls",
+    bounded_native=[dict(unit="stdlib_signatures", bound="96 stdlib calls with one argument (first or later position) typed only at runtime x 20 argument values of every kind (numbers, strings, arrays, objects, null, boolean, float, timestamp): 1920 calls",
                          functions=["Function::compile(..).type_def vs resolve for ~70 stdlib functions (see SIGNATURE_CALLS in /verif/replay/src/main.rs)"],
                          text="no contract reaches the ~200 type_def implementations: on the stated domain a call with a runtime-typed argument either errors (coalesced by `?? \"fallback\"`) or returns a value of the kind the compiler reports (independent membership predicate), and never panics"),
                     dict(unit="stdlib_signatures_known", bound="the 6 calls of the recorded finding x the same 20 values (120 calls)",
